@@ -51,15 +51,15 @@ CHECKS = {
    text="All interleavings of three concurrent tasks (1-3 lookups each over 1-3 module keys, suppliers that suspend 0-3 times and answer Ok/NotFound/ParseError/LoadError) are explored exhaustively; a variant that drops the lock across the supplier await is required to violate AtMostOnce (vacuity guard). Each complete behaviour is executed on the real Symbolizer by a hand-written executor that polls exactly the named task, with pending_stats and per-task observations compared after every step and supplier call counts, observed outcomes (each requester must see its own module's symbols) and counters at the end. Keys differ in exactly one component of the module identity.",
    note="Trusted: TLC, SymbolCache.tla, the executor / gated mock supplier in replay_symcache.rs. Cancellation excluded (as in the statement). Thread-level interleavings inside tokio are sampled only."),
  "C04": dict(
-   level="model_checking", design_ref="DESIGN.md section 5 'C05 / C04'",
-   technique="TLA+ model of the x86-64 get_caller_frame loop (WalkerAmd64.tla) with a stack builder; TLC checks that the modelled walk of every built stack is exactly the generated call chain; every built stack is materialised and walked by the real walk_stack and compared frame for frame",
-   text="Build(chain) lays out a well-formed stack for every chain of up to MaxDepth calls, each found by frame pointer, STACK CFI or scanning, with filler sizes that include the last word inside the 40- and 160-word scan windows. TLC proves MatchesBuild on the model (the walk returns exactly the chain and stops at its end); the harness turns each built stack into a real context, stack memory, module list and symbol text and requires the real walker to return the same frames (return address, lookup address, sp, frame pointer value and validity, technique).",
-   note="Trusted: TLC, WalkerAmd64.tla, harness/src/walk.rs (materialisation and projection through public accessors). Claimed for x86-64 (non-Windows) chains only: x86/STACK WIN, ARM, ARM64 and MIPS chains are not yet built (their walkers are covered by the C05 monitors, not by exact chain recovery)."),
+   level="model_checking", design_ref="DESIGN.md section 0 and section 5 'C05 / C04'",
+   technique="TLA+ models of the get_caller_frame loops of x86-64 (WalkerAmd64.tla), x86 with STACK WIN frame data / FPO / STACK CFI and grand-callee parameter sizes (WalkerX86.tla), ARM on iOS and Linux and ARM64 in both context layouts (WalkerArm.tla), each with a stack builder; TLC checks that the modelled walk of every built stack is exactly the generated call chain; every built stack is materialised and walked by the real walk_stack and compared frame for frame",
+   text="Build(chain) lays out a well-formed stack for every chain of up to MaxDepth calls; per call the caller is found by a frame record, by an unwind record of each kind the architecture has, or by scanning, with filler and parameter sizes chosen so that the record kinds meet every grand-callee parameter size. TLC proves MatchesBuild on each model (the walk returns exactly the chain, stops at its end, and knows the frame pointer wherever the chain hands it on); the harness turns each built stack into a real context, stack memory, module list and symbol text, runs walk_stack and compares return address, stack pointer, technique label, callee-saved register validity and values, and parameter size with the model.",
+   note="Trusted: TLC, the three Walker modules, harness/src/walk.rs (materialisation and projection through public, alias-aware accessors). MIPS has no builder. For STACK WIN frames only %ebp is compared among callee-saved registers (the stale validity of ebx/esi/edi is the finding recorded under C07)."),
  "C05": dict(
-   level="model_checking", design_ref="DESIGN.md section 5 'C05 / C04'",
-   technique="TLA+ model of the x86-64 walker with the C05 predicates as invariants, exhaustively explored by TLC and replayed for exact agreement on the real walker; for all six walkers, recorded real call stacks from seeded random inputs are judged by TLC (Trace_Walk.tla, exact u64 on limbs)",
-   text="C05 is a set of predicates over the produced frames; they are stated once in TLA+ and evaluated (a) as invariants of the amd64 walker model over every small stack/context/rule combination, which the real walker must reproduce exactly, and (b) by TLC on call stacks recorded from the real walk_stack for amd64, x86, arm64 (both layouts), arm and mips under seeded random contexts (0 / 2^32-1 / 2^64-1 / near stack bounds), random stack bytes with planted pointers, stacks at the top of the address space, random module lists and CFI/STACK WIN text that puts the CFA below, at or above sp.",
-   note="Trusted: TLC, Trace_Walk.tla, Words.tla (self-tested), harness/src/walk.rs. Arbitrary inputs are sampled, not enumerated, for the architectures without a step model."),
+   level="model_checking", design_ref="DESIGN.md section 0 and section 5 'C05 / C04'",
+   technique="TLA+ models of the x86-64, x86, ARM and ARM64 walkers with the C05 predicates as invariants, exhaustively explored by TLC over every small stack / context / unwind-rule combination and replayed for exact agreement on the real walkers; for all walkers incl. MIPS, recorded real call stacks from seeded random inputs are judged by TLC (Trace_Walk.tla, exact u64 on limbs)",
+   text="C05 is a set of predicates over the produced frames; they are stated once in TLA+ and evaluated (a) as invariants of the walker models over every small stack/context/rule combination, which the real walkers must reproduce exactly (return address, sp, technique, register validity and values), and (b) by TLC on call stacks recorded from the real walkers under seeded random contexts, stack bytes, module lists and symbol text.",
+   note="Trusted: TLC, Trace_Walk.tla, Words.tla (self-tested), the Walker modules, harness/src/walk.rs. Arbitrary inputs are sampled, not enumerated; MIPS has no step model."),
  "C14": dict(
    level="model_checking", design_ref="DESIGN.md section 5 'C14'",
    technique="TLA+ specification of the process-state indexing rules (Processor.tla) with design invariants checked by TLC; every reachable dump description serialised by a frozen independent writer, processed by the real process_minidump and compared field by field",
